@@ -580,6 +580,17 @@ func genC03(tier string, seed uint64, emit func(string)) {
 		l0, l1 := len(p.reqs[0]), len(p.reqs[0])+len(p.reqs[1])
 		emit(serveLine("blk", [][]byte{p.bytes()}, "r a6 b:61 b:31 b:62 b:32 b:63 b:33", floatTable(argv), fmt.Sprintf("served 3 ends %d %d %d", l0, l1, len(p.bytes()))))
 	}
+	// a connection that is idle for longer than any timeout a server may have (really idle: wall-clock time) between two
+	// requests: the next request is answered like the first, and so are the ones behind it
+	gaps := []int{31000}
+	if tier == "thorough" {
+		gaps = []int{31000, 61000, 121000, 301000}
+	}
+	for _, g := range gaps {
+		first, rest := reqS("PING"), append(append([]byte{}, reqS("ECHO", "after-idle")...), reqS("PING")...)
+		l0, l1 := len(first), len(first)+len(reqS("ECHO", "after-idle"))
+		emit(serveLine(fmt.Sprintf("blk gap=%d", g), [][]byte{first, rest}, "r b:76", "", fmt.Sprintf("served 3 ends %d %d %d", l0, l1, len(first)+len(rest))))
+	}
 	// the empty string in every argument position of every command (a key, a value, a number, a score bound, an option
 	// word, a pattern): answered like any other request, the connection stays usable
 	for _, cmd := range append(append(append([]string{}, simpleForms...), compositeForms...), systemForms...) {
